@@ -70,7 +70,7 @@ func rulesC04(r *Run) {
 	// ---- R5
 	r.Kind("R5", "K7")
 	ruleReasonTable(r, "R5")
-	r.Expect("R5", 5)
+	r.Expect("R5", 6)
 
 	// ---- R6
 	r.Kind("R6", "K2")
@@ -779,6 +779,32 @@ func ruleReasonTable(r *Run, rule string) {
 			}
 		}
 	}
+	// a group that never ran is not the stage that failed
+	badNS, nNS := "", 0
+	for i := range paths {
+		p := &paths[i]
+		for j, e := range p.Ev {
+			if e.Kind != EvBranch || e.Tag == nil || !e.Taken {
+				continue
+			}
+			if _, m := FieldPath(fl.Info, e.Tag, "workflow.Checks", "State", "Status"); !m || ValueKey(fl.Info, e.Cond) != "workflow.NotStarted" {
+				continue
+			}
+			nNS++
+			for x := j + 1; x < len(p.Ev); x++ {
+				if p.Ev[x].Kind == EvRange {
+					break
+				}
+				if p.Ev[x].Kind == EvReturn && len(p.Ev[x].Rhs) == 2 && ValueKey(fl.Info, p.Ev[x].Rhs[1]) != "nil" && badNS == "" {
+					badNS = "a check group that is NotStarted is reported as the failing stage"
+				}
+			}
+		}
+	}
+	if nNS == 0 {
+		badNS = "examineChecks has no case for a check group that never ran (NotStarted): it falls into the default branch and is blamed — a plan whose block failed gets the reason of its (never run) post checks, and a plan that ended before its continuous checks' first run ends Failed although nothing failed"
+	}
+	r.Check(rule, "examineChecks:never-run-group-not-blamed", ex.Decl.Pos(), badNS == "", "%s", orOK(badNS, "NotStarted ⇒ skipped"))
 	if nf == 0 {
 		r.Unresolved(rule, "examineChecks Failed case")
 	} else {
